@@ -96,25 +96,30 @@ def symbolic(job, fb, m):
         def harness():
             with tr.traced():
                 return fb.fd_weights_all(nodes, sn.SymQ(x0), n)
-        p = sn.run_single(harness)
-        job.paths += 1
-        if p.exc is not None:
-            raise p.exc
-        w = np.asarray(p.result)
-        if not job.confirm('shape', w.shape == (n + 1, m)):
-            job.violation('shape', dict(key='C15:shape', kind='shape', m=m, n=n, got=list(w.shape)))
-            continue
-        # every denominator the recursion divided by is non-zero when the nodes are distinct
-        for dterm in list(sn.SymQ.NONZERO):
-            job.prove('denominator-nonzero', dterm != 0, distinct, dict(key='C15:division-by-zero', kind='sym', m=m, n=n))
-        for k in range(n + 1):
-            for d in range(m):
-                lhs = sn.SymQ(z3.RealVal(0))
-                for v in range(m):
-                    lhs = lhs + sn.SymQ.of(w[k, v]) * (sn.SymQ(xs[v]) ** d)
-                rhs = sn.SymQ(sn.ratval(math.perm(d, k)) * sn._pow_term(x0, d - k)) if d >= k else sn.SymQ(z3.RealVal(0))
-                job.prove('moment m=%d n=%d row=%d deg=%d' % (m, n, k, d), lhs.eq_term(rhs), distinct,
-                          dict(key='C15:weights-not-lagrange', kind='sym', m=m, n=n, row=k, deg=d))
+        ex = sn.Explorer(harness, assumptions=distinct, max_paths=400, timeout_ms=20000)
+        for p in ex.paths():
+            if p.exc is not None:
+                if isinstance(p.exc, sn.Unsupported):
+                    raise p.exc
+                job.violation('raises', dict(key='C15:raises:%s' % type(p.exc).__name__, kind='sym', m=m, n=n, exc=repr(p.exc)[:200]))
+                continue
+            w = np.asarray(p.result)
+            conds = p.conds()
+            if not job.confirm('shape', w.shape == (n + 1, m)):
+                job.violation('shape', dict(key='C15:shape', kind='shape', m=m, n=n, got=list(w.shape)))
+                continue
+            # every denominator the recursion divided by is non-zero when the nodes are distinct
+            for dterm in list(sn.SymQ.NONZERO)[:60]:
+                job.prove('denominator-nonzero', dterm != 0, conds, dict(key='C15:division-by-zero', kind='sym', m=m, n=n))
+            for k in range(n + 1):
+                for d in range(m):
+                    lhs = sn.SymQ(z3.RealVal(0))
+                    for v in range(m):
+                        lhs = lhs + sn.SymQ.of(w[k, v]) * (sn.SymQ(xs[v]) ** d)
+                    rhs = sn.SymQ(sn.ratval(math.perm(d, k)) * sn._pow_term(x0, d - k)) if d >= k else sn.SymQ(z3.RealVal(0))
+                    job.prove('moment m=%d n=%d row=%d deg=%d' % (m, n, k, d), lhs.eq_term(rhs), conds,
+                              dict(key='C15:weights-not-lagrange', kind='sym', m=m, n=n, row=k, deg=d))
+        job.absorb_explorer(ex)
     # twin: with a repeated node allowed the distinctness assumption is what makes it hold; and weights depend on x0
     job.twin('assumptions satisfiable', distinct)
 
@@ -129,24 +134,33 @@ def concrete(job, fb, m, family, seed):
     def harness():
         with tr.traced():
             return fb.fd_weights_all(nodes, x0, nmax)
-    p = sn.run_single(harness)
-    job.paths += 1
-    if p.exc is not None:
-        raise p.exc
-    w = np.asarray(p.result)
-    if not job.confirm('shape', w.shape == (nmax + 1, m)):
-        job.violation('shape', dict(key='C15:shape', kind='shape', m=m, n=nmax, got=list(w.shape)))
-        return
+    ex = sn.Explorer(harness, max_paths=300, timeout_ms=20000)
+    paths = list(ex.paths())
+    job.absorb_explorer(ex)
     pvals = [cm.poly_fun(b)(sn.const(v)) for v in nodes_q]
-    for k in range(nmax + 1):
-        lhs = None
-        for v in range(m):
-            t = w[k, v] * pvals[v]
-            lhs = t if lhs is None else lhs + t
-        rhs = cm.poly_deriv_at(b, k, x0)
-        diff = z3.simplify(sn.lift(lhs) - sn.lift(rhs), som=True)
-        job.prove('apply-to-polynomial m=%d row=%d' % (m, k), diff == 0, [],
-                  dict(key='C15:weights-not-lagrange', kind='concrete', m=m, family=family, row=k, seed=seed))
+    w = None
+    for p in paths:
+        if p.exc is not None:
+            if isinstance(p.exc, sn.Unsupported):
+                raise p.exc
+            job.violation('raises', dict(key='C15:raises:%s' % type(p.exc).__name__, kind='concrete', m=m, family=family, seed=seed,
+                                         exc=repr(p.exc)[:200]))
+            continue
+        w = np.asarray(p.result)
+        if not job.confirm('shape', w.shape == (nmax + 1, m)):
+            job.violation('shape', dict(key='C15:shape', kind='shape', m=m, n=nmax, got=list(w.shape)))
+            return
+        for k in range(nmax + 1):
+            lhs = None
+            for v in range(m):
+                t = w[k, v] * pvals[v]
+                lhs = t if lhs is None else lhs + t
+            rhs = cm.poly_deriv_at(b, k, x0)
+            diff = z3.simplify(sn.lift(lhs) - sn.lift(rhs), som=True)
+            job.prove('apply-to-polynomial m=%d row=%d' % (m, k), diff == 0, p.conds(),
+                      dict(key='C15:weights-not-lagrange', kind='concrete', m=m, family=family, row=k, seed=seed))
+    if w is None or len(paths) != 1:
+        return          # the twin / validation below assume the single fork-free trace of the recursion
     # twin: degree m polynomial is NOT reproduced (the check can see a wrong weight)
     bm = sn.real_var('bm')
     extra = [cm.poly_fun(b + [bm])(sn.const(v)) for v in nodes_q]
